@@ -491,6 +491,32 @@ def run_combined(pe, acc, case):
                         acc.fail('fit-combined', sub, 'combined fit, keys inserted as %s, correlation %s, priors %s: %s' % (order, mode, pform, bad))
                     else:
                         acc.ok(('comb', layout, keys, order, mode, pform), True, 'combined')
+        # a user-supplied inverse Cholesky factor that was built, and is labelled, in another key order than the alphabetical one:
+        # refused, or used as the matrix of the data in that order (never applied unpermuted to the alphabetically stacked data)
+        for lab in itertools.permutations(keys):
+            if list(lab) == skeys:
+                continue
+            y_lab = [y for k in lab for y in data[k]]
+            dyl = np.array([y.dvalue for y in y_lab])
+            corr = 0.5 * pe.covariance(y_lab, correlation=True) + 0.5 * np.eye(len(y_lab))
+            Ll = pe.obs.invert_corr_cov_cholesky(corr, np.diag(1 / dyl))
+            pos = {id(y): i for i, y in enumerate(y_lab)}
+            perm = [pos[id(y)] for y in y_all]
+            W = (Ll.T @ Ll)[np.ix_(perm, perm)]
+            p, pobs, chisq, K = expected_fit(pe, rows_all, y_all, W, [], npar)
+            for order in itertools.permutations(keys):
+                sub = dict(case, keys=list(keys), order=list(order), mode='user-labelled-in-other-order', labels=list(lab))
+                try:
+                    res = pe.least_squares({k: xs[k] for k in order}, {k: data[k] for k in order[::-1]}, {k: funcs[k] for k in order}, silent=True,
+                                           correlated_fit=True, inv_chol_cov_matrix=[Ll, list(lab)])
+                except Exception:
+                    acc.ok(('comb-lab', layout, keys, order, lab), True, 'other-label-order-refused')
+                    continue
+                bad = compare_fit(pe, res, p, pobs, chisq, len(y_all), npar, 0, 1e-4, y_all, True)
+                if bad:
+                    acc.fail('fit-combined:matrix-labelled-in-other-order', sub, 'inverse Cholesky factor built and labelled in the key order %s was accepted, but the fit is not the GLS solution with that matrix: %s' % (list(lab), bad))
+                else:
+                    acc.ok(('comb-lab', layout, keys, order, lab), True, 'combined')
     acc.sample({'kind': 'combined', 'layout': layout, 'data_sets': ['a(4 pts: p0+p1 x)', 'b(3 pts: p0+p2 x)', 'c(2 pts: constant p1)'], 'orders': 'all key insertion orders'})
 
 
